@@ -18,7 +18,7 @@ def run(tier, seed):
         ck.violation("harness-build", {"kind": "build"}, {"log": log[-3000:]}, no_input=True)
         return ck.finish()
     rc, out = sh([binp, "-seed", str(seed), "-n", str(n)], timeout=1200)
-    cases = [json.loads(l) for l in out.split("\n") if l.startswith("{")]
+    cases = jlines(out)
     if rc != 0 or not cases:
         ck.violation("harness-crash", {"kind": "crash"}, {"rc": rc, "tail": out[-3000:]})
         return ck.finish()
@@ -157,7 +157,7 @@ def _typed_terms(cases):
             _TYPED["skipped"] = "harness c01t does not build: " + log[-1500:]
             return None
         rc, out = sh([binp], timeout=300, inp="\n".join(todo) + "\n")
-        outs = [json.loads(l) for l in out.split("\n") if l.startswith("{")]
+        outs = jlines(out)
         if rc != 0 or len(outs) != len(todo):
             _TYPED["skipped"] = "harness c01t failed (rc %d, %d of %d lines): %s" % (rc, len(outs), len(todo), out[-1500:])
             return None
